@@ -48,6 +48,7 @@ func (g grant) String() string {
 
 type world struct {
 	bad []string // violations noticed while the scenario runs
+	badKey string
 	st     *fakeetcd.Store
 	srvs   map[int]*srvh.Srv
 	conns  []*grpc.ClientConn
@@ -101,6 +102,24 @@ func newWorld(zones map[int]string) *world {
 	zones = zc
 	w := &world{st: fakeetcd.New(), srvs: map[int]*srvh.Srv{}, zones: zones, ctx: ctx, cancel: cancel, leader: 1, allocLeader: map[string]int{}}
 	srvh.SeedClusterID(w.st)
+	// an allocator leadership (record <root>/<dc-location>) is only ever won while no live record exists
+	live := map[string]bool{}
+	w.st.OnCommit = func(evs []fakeetcd.Event) {
+		for _, e := range evs {
+			if !strings.HasPrefix(e.Key, srvh.Root+"/dc") || strings.Count(e.Key, "/") != 3 {
+				continue
+			}
+			if e.Delete {
+				delete(live, e.Key)
+				continue
+			}
+			if live[e.Key] {
+				w.bad = append(w.bad, fmt.Sprintf("the allocator leader record %s was written by %s while a live record existed", e.Key, e.Who))
+				w.badKey = "allocator-campaign-over-live-leader"
+			}
+			live[e.Key] = true
+		}
+	}
 	var ids []int
 	for id := range zones {
 		ids = append(ids, id)
@@ -258,7 +277,11 @@ func (w *world) close() {
 func (w *world) check(r *sched.Run) (string, *explore.Violation) {
 	defer w.close()
 	if len(w.bad) > 0 {
-		return "", &explore.Violation{Key: "suffix-changed", Msg: strings.Join(w.bad, "; ")}
+		k := w.badKey
+		if k == "" {
+			k = "suffix-changed"
+		}
+		return "", &explore.Violation{Key: k, Msg: strings.Join(w.bad, "; ")}
 	}
 	var ok []grant
 	sfx := w.suffixes()
@@ -482,6 +505,21 @@ func main() {
 	}
 	l = append(l, scenario(scen{name: "2dc/pd-leader-move+2joins", zones: two, alloc: map[string]int{"dc1": 1, "dc2": 2}, pre: 1, tiers: "quick", build: leaderMove}))
 	l = append(l, scenario(scen{name: "2dc/pd-leader-move+2joins@3", zones: two, alloc: map[string]int{"dc1": 1, "dc2": 2}, pre: 3, tiers: "thorough", build: leaderMove}))
+	// two members want the same allocator leadership: dc2's allocator is led by server 2 and
+	// server 1 campaigns for it as well (its view of the leadership is late)
+	contend := func(w *world) ([]string, []func()) {
+		return []string{"local2", "contender", "global"}, []func(){
+			func() { w.request(2, "dc2", 1); w.request(2, "dc2", 1) },
+			func() {
+				if err := w.electAllocatorUnobserved(1, "dc2"); err == nil {
+					w.request(1, "dc2", 1)
+				}
+			},
+			func() { w.request(1, G, 1) },
+		}
+	}
+	l = append(l, scenario(scen{name: "2dc/allocator-contention", zones: two, alloc: map[string]int{"dc1": 1, "dc2": 2}, pre: 3, tiers: "quick", build: contend}))
+	l = append(l, scenario(scen{name: "2dc/allocator-contention@8", zones: two, alloc: map[string]int{"dc1": 1, "dc2": 2}, pre: 8, tiers: "thorough", build: contend}))
 	// a datacenter whose allocator leader is elected while traffic is running (joins later)
 	joinLater := func(w *world) ([]string, []func()) {
 		return []string{"local1", "global", "join"}, []func(){
